@@ -22,7 +22,7 @@ CaseOK(ev) ==
   LET r == Exec(Mono(Supers[ev.e], Universe(ev)), ev.doc, ev.vars)
   IN <<VEq(ev.data, r.data), ev.err = r.err>>
 ExchangeOK(ev) ==
-  LET M == Sub(Subs[ev.e][ev.sg], Universe(ev))
+  LET M == SubAt(Subs[ev.e][ev.sg], Universe(ev), ev.seq0)    \* seq0: the world's counter when the request arrived
       r == Exec(M, ev.doc, ev.vars)
   IN <<RequestOK(M, ev.doc, ev.vars), VEq(ev.data, r.data), ev.err = r.err>>
 
